@@ -2016,19 +2016,23 @@ func (e *AnonSymbolExpr) Value(ctx *hcl.EvalContext) (cty.Value, hcl.Diagnostics
 		return cty.DynamicVal, nil
 	}
 
+	verifHook("anon.pre", e, ctx, "read")
 	e.valuesLock.RLock()
 	defer e.valuesLock.RUnlock()
 
 	val, exists := e.values[ctx]
 	if !exists {
+		verifHook("anon.read", e, ctx, nil)
 		return cty.DynamicVal, nil
 	}
+	verifHook("anon.read", e, ctx, val)
 	return val, nil
 }
 
 // setValue sets a temporary local value for the expression when evaluated
 // in the given context, which must be non-nil.
 func (e *AnonSymbolExpr) setValue(ctx *hcl.EvalContext, val cty.Value) {
+	verifHook("anon.pre", e, ctx, "set")
 	e.valuesLock.Lock()
 	defer e.valuesLock.Unlock()
 
@@ -2039,9 +2043,11 @@ func (e *AnonSymbolExpr) setValue(ctx *hcl.EvalContext, val cty.Value) {
 		panic("can't setValue for a nil EvalContext")
 	}
 	e.values[ctx] = val
+	verifHook("anon.set", e, ctx, val)
 }
 
 func (e *AnonSymbolExpr) clearValue(ctx *hcl.EvalContext) {
+	verifHook("anon.pre", e, ctx, "clear")
 	e.valuesLock.Lock()
 	defer e.valuesLock.Unlock()
 
@@ -2052,6 +2058,7 @@ func (e *AnonSymbolExpr) clearValue(ctx *hcl.EvalContext) {
 		panic("can't clearValue for a nil EvalContext")
 	}
 	delete(e.values, ctx)
+	verifHook("anon.clear", e, ctx, nil)
 }
 
 func (e *AnonSymbolExpr) walkChildNodes(w internalWalkFunc) {
